@@ -593,27 +593,108 @@ theorem run_value (e : List (List UInt8)) (fi : UInt8) (cur ln : Nat) (post : Li
           rw [hval] at hrun2
           refine ⟨_, runSteps_append _ _ _ _ post (c0 :: v') hrun1 (by simp only [runSteps, hstep]; exact hrun2), ?_⟩
           exact ⟨[c0] ++ v', true, ln, _, rfl, Or.inl ⟨rfl, by simp⟩, by simp⟩
-      · -- quoted
+      · -- quoted: `"` escaped part `"` and the backslashes of the end
         have hp' : plainOk v = false := by simpa using hp
         simp only [hp', Bool.false_eq_true, ↓reduceIte]
         unfold valueOk at hvo
-        simp only [hp', Bool.false_or, Bool.and_eq_true, Bool.not_eq_eq_eq_not, Bool.not_true, bne_iff_ne, ne_eq] at hvo
-        obtain ⟨⟨_, hz⟩, hlast⟩ := hvo
+        simp only [Bool.and_eq_true, Bool.not_eq_eq_eq_not, Bool.not_true] at hvo
+        obtain ⟨_, hz⟩ := hvo
+        -- split the value
+        have hsplit : quotedPart v ++ tailSlashes v = v := by
+          unfold quotedPart tailSlashes
+          rw [← List.reverse_append, List.takeWhile_append_dropWhile, List.reverse_reverse]
+        have hts : (tailSlashes v).all (fun c => c == 92) = true := by
+          unfold tailSlashes
+          rw [List.all_reverse]; exact List.all_takeWhile
+        have hqlast : (quotedPart v).getLast? ≠ some 92 := by
+          unfold quotedPart
+          rw [List.getLast?_reverse]
+          have := List.head?_dropWhile_not (fun c : UInt8 => c == 92) v.reverse
+          intro h
+          rw [h] at this
+          simp at this
+        have hqne : quotedPart v ≠ [] := by
+          -- otherwise the value consists of backslashes only, and such a value is written plain
+          intro hq
+          rw [hq, List.nil_append] at hsplit
+          have hall : v.all (fun c => c == 92) = true := by rw [← hsplit]; exact hts
+          have : plainOk v = true := by
+            unfold plainOk
+            have hve' : v.isEmpty = false := by simpa using hne
+            simp only [hve', Bool.not_false, Bool.true_and, Bool.and_eq_true]
+            refine ⟨?_, ?_⟩
+            · rw [List.all_eq_true] at hall ⊢
+              intro c hc
+              have : c = 92 := by simpa using hall c hc
+              subst this; decide
+            · cases v with
+              | nil => exact absurd rfl hne
+              | cons a r =>
+                have ha : a = 92 := by
+                  have := (List.all_eq_true.mp hall) a (by simp)
+                  simpa using this
+                have hl : ∃ b, (a :: r).getLast? = some b ∧ b = 92 := by
+                  have hnn : (a :: r) ≠ [] := by simp
+                  refine ⟨(a :: r).getLast hnn, List.getLast?_eq_some_getLast hnn, ?_⟩
+                  have := (List.all_eq_true.mp hall) _ (List.getLast_mem hnn)
+                  simpa using this
+                obtain ⟨b, hb1, hb2⟩ := hl
+                simp only [List.head?_cons, hb1]
+                subst ha hb2
+                decide
+          rw [hp'] at this; cases this
+        have hzq : (quotedPart v).contains 0 = false := by
+          cases hc : (quotedPart v).contains 0
+          · rfl
+          · exfalso
+            have hm : (0 : UInt8) ∈ quotedPart v := by simpa using hc
+            have : (0 : UInt8) ∈ v := by rw [← hsplit]; exact List.mem_append_left _ hm
+            have : v.contains 0 = true := by simpa using this
+            rw [hz] at this; cases this
         have hopen := dataStep_quote_open hf e x fi cur ln la hx
-        obtain ⟨ln', la', hesc, hl1, _⟩ := run_escape hf e fi cur v [] (some 34) ln hz
+        obtain ⟨ln', la', hesc, hl1, _⟩ := run_escape hf e fi cur (quotedPart v) [] (some 34) ln hzq
         have hq0 : qstate e fi cur ln [] (some 34) = Dst e [34] false fi 0 cur ln 34 (some 34) := by
           simp [qstate]
-        have hq1 : qstate e fi cur ln' ([] ++ v) la' = Dst e v true fi v.length cur ln' 34 la' := by
-          have : v.isEmpty = false := by simpa using hne
+        have hq1 : qstate e fi cur ln' ([] ++ quotedPart v) la'
+            = Dst e (quotedPart v) true fi (quotedPart v).length cur ln' 34 la' := by
+          have : (quotedPart v).isEmpty = false := by simpa using hqne
           simp [qstate, this]
         rw [hq0, hq1] at hesc
-        have hla : la' ≠ some 92 := by rw [hl1 hne]; exact hlast
-        have hclose := dataStep_in_close hf e v fi v.length cur ln' la' hla hne
-        refine ⟨Dst e v true fi v.length cur ln' 0 (some 34), ?_, ?_⟩
-        · refine runSteps_append _ _ _ _ post (34 :: escape v ++ [34]) hrun1 ?_
-          simp only [List.cons_append, runSteps, hopen]
-          exact runSteps_append _ _ _ _ (escape v) [34] hesc (by simp only [runSteps, hclose])
-        · exact ⟨v, true, ln', some 34, rfl, Or.inl ⟨rfl, Nat.le_refl _⟩, by simp⟩
+        have hla : la' ≠ some 92 := by rw [hl1 hqne]; exact hqlast
+        have hclose := dataStep_in_close hf e (quotedPart v) fi (quotedPart v).length cur ln' la' hla hqne
+        -- the backslashes behind the closing quote are plain characters
+        have hplain : (tailSlashes v).all plainChar = true := by
+          rw [List.all_eq_true] at hts ⊢
+          intro c hc
+          have : c = 92 := by simpa using hts c hc
+          subst this; decide
+        have hrun3 := run_plain hf e fi cur ln' (tailSlashes v) (quotedPart v) (quotedPart v).length (some 34) hplain
+        have hval : validAfter (quotedPart v).length (quotedPart v).length (tailSlashes v) = v.length := by
+          cases hb : (tailSlashes v).getLast? with
+          | none =>
+            have : tailSlashes v = [] := by simpa using hb
+            rw [this] at hsplit ⊢
+            rw [List.append_nil] at hsplit
+            rw [hsplit]; rfl
+          | some cl =>
+            obtain ⟨w, hw⟩ : ∃ w, tailSlashes v = w ++ [cl] := List.getLast?_eq_some_iff.mp hb
+            have hcl : cl = 92 := by
+              have := (List.all_eq_true.mp hts) cl (by rw [hw]; simp)
+              simpa using this
+            have hsp : isspace cl = false := by subst hcl; decide
+            rw [hw, validAfter_vis _ _ _ _ hsp]
+            have : v.length = (quotedPart v).length + (w ++ [cl]).length := by
+              rw [← hw, ← List.length_append, hsplit]
+            rw [this]; simp; omega
+        rw [hval, hsplit] at hrun3
+        refine ⟨Dst e v true fi v.length cur ln' 0
+          (if (tailSlashes v).isEmpty = true then some 34 else (tailSlashes v).getLast?), ?_, ?_⟩
+        · refine runSteps_append _ _ _ _ post (34 :: escape (quotedPart v) ++ [34] ++ tailSlashes v) hrun1 ?_
+          simp only [List.cons_append, List.append_assoc, runSteps, hopen]
+          refine runSteps_append _ _ _ _ (escape (quotedPart v)) ([34] ++ tailSlashes v) hesc ?_
+          simp only [List.singleton_append, runSteps, hclose]
+          exact hrun3
+        · exact ⟨v, true, ln', _, rfl, Or.inl ⟨rfl, Nat.le_refl _⟩, by simp⟩
 
 /-- **`mpt_parse_data` reads a written value**: blanks, value text, trailing decoration, line feed -/
 theorem parseData_value (cfg : Cfg) (hcfg : cfg.fmt = f) (e : List (List UInt8)) (fi : UInt8) (cur ln : Nat)
